@@ -393,6 +393,35 @@ func (a *Adversary) Do(s *ByzSpec) {
 			r := a.ref(TC, p.H, p.V, p.Hash)
 			a.inject("support-commit", &MsgSpec{Union: UC, Ref: r, Sender: a.signedRef(b, r), Share: a.share(b, p.H)}, s.To)
 		}
+	case "follow": // every Byzantine member behaves like a correct one for once: it PREPAREs and COMMITs the latest proposal a correct leader made at this height
+		var src *SentMsg
+		for _, o := range w.Seen {
+			if o.Meta.H == h && (o.Meta.Union == UPP || o.Meta.Union == UNV) && (src == nil || o.Meta.V >= src.Meta.V) {
+				src = o
+			}
+		}
+		if src == nil {
+			return
+		}
+		leader := w.LeaderIdx(h, src.Meta.V)
+		for _, b := range w.Cfg.Byz {
+			if b != leader && par(s, 1) != 1 {
+				r := a.ref(TP, h, src.Meta.V, []byte(src.Meta.Hash))
+				a.inject("follow-prepare", &MsgSpec{Union: UP, Ref: r, Sender: a.signedRef(b, r)}, s.To)
+			}
+			r := a.ref(TC, h, src.Meta.V, []byte(src.Meta.Hash))
+			a.inject("follow-commit", &MsgSpec{Union: UC, Ref: r, Sender: a.signedRef(b, r), Share: a.share(b, h)}, s.To)
+		}
+	case "votes": // every Byzantine member sends a plain (proof-less) or best-proof VIEW_CHANGE for (h, v) to that view's leader
+		for _, b := range w.Cfg.Byz {
+			var proof *ProofSpec
+			var blk *fakes.Block
+			if par(s, 0) == 1 {
+				proof, blk = a.bestProof(h, v, 0)
+			}
+			vs := a.vote(b, h, v, proof)
+			a.inject("votes", &MsgSpec{Union: UVC, Vote: &vs, Block: blk}, 1<<uint(w.LeaderIdx(h, v)))
+		}
 	case "prepare": // A4
 		r := a.ref(TP, h, v, a.block(h, par(s, 0)).Hash())
 		a.inject("prepare", &MsgSpec{Union: UP, Ref: r, Sender: a.signedRef(s.As, r)}, s.To)
